@@ -375,3 +375,109 @@ def r17_10_source_text_untouched(ctx, rid='R17.10'):
             r.check(ia is not None and ia[0] == io and ia[1] <= {'Path'}, 'branch on %s' % norm(b.ast), f.key('branch:%s' % norm(b.ast)[:40]),
                     f.loc(b.ast), 'the source is special-cased by `%s`' % norm(b.ast))
     r.done()
+
+
+def r14_12_same_constructors(ctx, rid='R14.12'):
+    """Node.get_value reads scalars with PyYAML's SafeConstructor; that is "what a load would construct" only as long as the
+    loader constructs scalars with the very same methods."""
+    P = ctx.P
+    from . import c09 as C9
+    r = ctx.rule(rid, 'the loader constructs core scalars with PyYAML\'s own SafeConstructor methods (the ones Node.get_value uses): no '
+                      'override with own logic in Loader\'s yatiml bases', floor=1)
+    loader = P.cls('yatiml.loader:Loader')
+    n = C9.overrides_are_delegations(ctx, r, loader, ('construct_yaml_int', 'construct_yaml_float', 'construct_yaml_bool', 'construct_yaml_null',
+                                                       'construct_yaml_str', 'construct_scalar', 'construct_object'),
+                                     'a load constructs another value for some spelling than Node.get_value() returns for the same node')
+    r.ok('%d overrides of scalar constructors in Loader\'s yatiml bases' % n)
+    g = fn(P, 'yatiml.helpers:Node.get_value')
+    used = {call_name(c) for c in g.walk() if isinstance(c, ast.Call) and isinstance(c.func, ast.Attribute)
+            and norm(c.func.value) == '_yaml_constructor'}
+    r.check({'construct_yaml_int', 'construct_yaml_float'} <= used, 'get_value reads int and float text through _yaml_constructor.%s'
+            % sorted(used), g.key('pyyaml-constructors'), g.loc(), 'Node.get_value no longer reads int/float nodes through PyYAML\'s '
+            'SafeConstructor')
+    r.done()
+    S.r04_3_registrations(ctx)
+
+
+def r14_13_value_as_given(ctx, rid='R14.13'):
+    """set_value(v) / set_attribute(a, v) store v itself: the parameter is not converted on the way (int -> float because the old
+    node was a float, str -> stripped ...) - otherwise get_value() returns something else than v and is_scalar(type(v)) is false."""
+    P = ctx.P
+    r = ctx.rule(rid, 'set_value / set_attribute write the value they are given: the parameter is never re-bound, and the new node does '
+                      'not depend on what the old node was', floor=2)
+    for name, pi in (('set_value', 1), ('set_attribute', 2)):
+        f = fn(P, H.NODE + name)
+        vp = f.fi.params[pi]
+        reb = [n for n in f.walk() if isinstance(n, (ast.Assign, ast.AugAssign, ast.AnnAssign, ast.NamedExpr))
+               and any(isinstance(x, ast.Name) and x.id == vp and isinstance(x.ctx, ast.Store) for x in ast.walk(n))]
+        r.check(not reb, '%s never re-binds %s' % (name, vp), f.key('value-rebound'), f.loc(reb[0]) if reb else f.loc(),
+                '%s converts its argument before storing it (%s): get_value() afterwards does not return the value that was set'
+                % (name, norm(reb[0])[:70] if reb else ''))
+    f = fn(P, H.NODE + 'set_value')
+    # the text and the tag of the new node are functions of the value alone (the old node only lends its marks and a custom tag)
+    old_reads = [c for c in f.walk() if isinstance(c, ast.Call) and isinstance(c.func, ast.Attribute) and norm(c.func.value) == 'self'
+                 and c.func.attr in ('is_scalar', 'get_value', 'is_mapping', 'is_sequence')]
+    r.check(not old_reads, 'set_value does not inspect the kind or value of the node it replaces', f.key('depends-on-old-node'),
+            f.loc(old_reads[0]) if old_reads else f.loc(), 'set_value looks at the old node (%s): what is stored depends on what was '
+            'there before' % (norm(old_reads[0])[:50] if old_reads else ''))
+    r.done()
+
+
+def r14_14_exact_key_match(ctx, rid='R14.14'):
+    """A Node is an ordered dictionary keyed by the exact key text: has_attribute / get_attribute / remove / rename compare the
+    key text with the name they were given and with nothing derived from it (dashed spelling, case folding ...)."""
+    P = ctx.P
+    r = ctx.rule(rid, 'attribute lookup is by the exact key text: every comparison of a key with a name compares with the parameter '
+                      'itself', floor=4)
+    n = 0
+    for name in ('has_attribute', 'get_attribute', '__attr_index', 'remove_attribute', 'rename_attribute'):
+        key = H.NODE + name
+        if not P.has_func(key):
+            continue
+        f = fn(P, key)
+        params = set(f.fi.params[1:])
+        for c in f.walk():
+            if not (isinstance(c, ast.Compare) and len(c.ops) == 1 and isinstance(c.ops[0], (ast.Eq, ast.NotEq, ast.In, ast.NotIn))):
+                continue
+            sides = [c.left, c.comparators[0]]
+            keyside = [s_ for s_ in sides if isinstance(s_, ast.Attribute) and s_.attr == 'value' and '<each:' in f.alpha.text(s_)]
+            if not keyside:
+                continue
+            other = [s_ for s_ in sides if s_ is not keyside[0]][0]
+            n += 1
+            r.check(f.alpha.text(other) in params and isinstance(c.ops[0], (ast.Eq, ast.NotEq)),
+                    '%s: key text compared with the parameter %s' % (name, f.alpha.text(other)), f.key('key-compared-with:%s' % f.alpha.text(other)[:40]),
+                    f.loc(c), '%s matches keys against %s instead of the name it was given: an attribute that is absent is found '
+                    'under another spelling (so "absent keys are ignored / reported" no longer holds and the transforms act on it)'
+                    % (name, f.alpha.text(other)[:60]))
+    if n < 3:
+        raise AnalysisError('anchor missing: key comparisons in Node.has_attribute/get_attribute/__attr_index (found %d)' % n)
+    r.done()
+
+
+def r18_9_process_node_writes(ctx, rid='R18.9'):
+    """What __process_node itself changes on a node: the tag (retag / strip), the rebuilt child list, and the processed attribute
+    stored back - all of them idempotent under a second visit through an alias. Anything else (renaming a key in place, moving
+    pairs, normalising text) changes the node under its other references."""
+    P = ctx.P
+    r = ctx.rule(rid, '__process_node writes only: node.tag, node.value (children rebuilt from the processed children), and '
+                      'set_attribute(name, processed child)', floor=3)
+    f = fn(P, S.PN)
+    node = f.fi.params[1]
+    n_ok = 0
+    for w in H.node_writes(f):
+        t = f.alpha.text(w)
+        ok = False
+        if isinstance(w, ast.Attribute) and norm(w.value) == node and w.attr in ('tag', 'value'):
+            ok = True
+        elif isinstance(w, ast.Call) and isinstance(w.func, ast.Attribute) and w.func.attr == 'set_attribute' and len(w.args) == 2:
+            a1 = f.copies.expand(w.args[1])
+            ok = '__process_node(' in norm(a1) or '__process_node(' in f.alpha.text(w.args[1])
+        n_ok += 1 if ok else 0
+        r.check(ok, '__process_node write %s' % norm(w)[:50], f.key('write:%s' % t[:50]), f.loc(w),
+                '__process_node modifies the node in another way than retagging it / storing processed children back (%s): with an '
+                'alias the same node object is reached again and the other reference sees the change (a key renamed in place shows up as a '
+                'changed *value* where the key node is aliased)' % norm(w)[:70])
+    if n_ok < 3:
+        r.fail(f.key('writes-missing'), f.loc(), '__process_node has only %d of its writes (tag, children, attribute store)' % n_ok)
+    r.done()
